@@ -95,3 +95,15 @@ claim("C04",
       "(split_order IC1, CM1, SO1c, RO1). NOT proved: partition/sort wiring through lowering, row-count preservation.",
       "Flattener::fold_expr is external (ghost log of (expression, frame in effect)); slices drop the rest of resolve_special_func / "
       "translate_windowed; unpack_as_int_literal and sqlparser value construction are trusted by contract.")
+
+prop("C18", ["dialect_select"],
+     not_covered="'the choice never changes which programs the resolver accepts' is argued from signatures only; that two dialect values "
+                 "produce the same SQL is not needed (the same value reaches the generator on both routes)")
+claim("C18",
+      "Proved on the real code for all (option, header) pairs: sql::compile hands the option's dialect to the generator unchanged (CS1); "
+      "compile_query uses the explicit option whatever the header says, without even consulting it (DS1a); with no option and no header the "
+      "generic dialect (DS1b); with no option the header decides through Target::from_str, and an error there is returned (DS1c, DS1d); "
+      "Target::from_str maps 'sql.any' to 'no dialect', 'sql.<name>' to the dialect strum knows under <name>, and everything else to an error "
+      "(FS1-FS4); Target::default() is Sql(None) (TD1). Equality of 'option x' and 'header x' follows: both routes yield the same Dialect value.",
+      "strum's Dialect::from_str is an uninterpreted partial function (the name table itself is derive output); HashMap lookup of the header "
+      "and translate_query are external; the resolver-independence clause is argued, not checked.")
